@@ -244,7 +244,22 @@ def files_case(rec, hub, rng, tier, d, tmpdir, i):
         elif route == "xlsx-first-sheet":
             mfa = fd.MFASystem.from_excel(definition, dimension_files=dim_files, parameter_files=par_files)
         else:
-            reader = fd.CompoundDataReader(dimension_reader=fd.CSVDimensionReader(dimension_files=dim_files), parameter_reader=fd.CSVParameterReader(parameter_files=par_files))
+            dreader = fd.CSVDimensionReader(dimension_files=dim_files)
+            if i % 8 in (3, 7):
+                # the SAME reader object is first asked for a dimension whose file must be refused (a grid instead of one row or
+                # column / a label that is no number for an int dimension); the user catches that and goes on
+                broken = os.path.join(tmpdir, f"broken_{i % 2}.csv")
+                kind_b = int(rng.integers(0, 2))
+                with open(broken, "w") as fh:
+                    fh.write(["Year,other\n2000,1\n2001,2\n", "2000\ntwenty-o-one\n2002\n"][kind_b])
+                dreader.dimension_files["Year"] = broken
+                rec.event(MB, sig=f"reader-reuse-after-refusal|{kind_b}", cls="data_reader|same-reader-after-a-refused-dimension-file")
+                try:
+                    dreader.read_dimension(fd.DimensionDefinition(name="Year", letter="Y", dtype=int))
+                    rec.violation(MR, "accepted:broken-dimension-file", {"kind": ["grid", "not-a-number"][kind_b]})
+                except Exception:
+                    pass
+            reader = fd.CompoundDataReader(dimension_reader=dreader, parameter_reader=fd.CSVParameterReader(parameter_files=par_files))
             mfa = fd.MFASystem.from_data_reader(definition, reader)
     except Exception as e:
         rec.event(MB, sig=f"{route}|raised", cls=f"{route}|raised")
@@ -322,6 +337,13 @@ def refusals(rec, hub, rng, d):
     if others:
         must_raise("sysenv-not-first", lambda: fd.make_processes(others + ["sysenv"]))
         must_raise("no-sysenv-at-all", lambda: fd.make_processes(others))
+    # a first process whose name only resembles the system environment's
+    for alias in ("Sysenv", "SYSENV", "sysenv ", " sysenv", "sys_env", "sysEnv", "system environment", "environment"):
+        must_raise(f"first-process-named-{alias!r}", lambda: fd.make_processes([alias] + others))
+        if alias == str(rng.choice(["Sysenv", "SYSENV", "sysenv "])):
+            dd_, ff_, ss_, pp_ = SY.fd_definitions(fd, d)
+            must_raise(f"definition-route:first-process-named-{alias!r}", lambda: fd.MFASystem.from_data_reader(
+                fd.MFADefinition(dimensions=dd_, processes=[alias] + others, flows=[], stocks=[], parameters=[]), _DimsOnlyReader(fd, d)))
     procs = fd.make_processes(d.processes)
     letters = [x[0] for x in d.dims]
     must_raise("flow-with-undefined-process", lambda: fd.make_empty_flows(processes=procs, flow_definitions=[fd.FlowDefinition(from_process_name="sysenv", to_process_name="no such process", dim_letters=tuple(letters[:1]))], dims=dims))
@@ -339,6 +361,21 @@ def refusals(rec, hub, rng, d):
     must_raise("definition-with-undefined-dimension-in-parameter", lambda: fd.MFADefinition(dimensions=dimdefs, processes=d.processes, flows=[], stocks=[], parameters=[fd.ParameterDefinition(name="p", dim_letters=("t", "q"))]))
     must_raise("definition-with-undefined-dimension-in-stock", lambda: fd.MFADefinition(dimensions=dimdefs, processes=d.processes, flows=[], stocks=[fd.StockDefinition(name="s", dim_letters=("t", "q"), subclass=fd.SimpleFlowDrivenStock)], parameters=[]))
     must_raise("multi-letter-dimension-name-in-flow", lambda: fd.FlowDefinition(from_process_name="a", to_process_name="b", dim_letters=("time",)))
+
+
+def _DimsOnlyReader(fd, d):
+    """a user-written data reader handing out the dimensions of d (no files)"""
+    by_name = {n: (l, it, dt) for l, n, it, dt in d.dims}
+
+    class R(fd.DataReader):
+        def read_dimension(self, definition):
+            l, it, dt = by_name[definition.name]
+            return fd.Dimension(name=definition.name, letter=definition.letter, items=list(it), dtype=definition.dtype)
+
+        def read_parameter_values(self, parameter_name, dims):
+            return fd.Parameter(dims=dims, name=parameter_name)
+
+    return R()
 
 
 def one(rec, hub, seed, tier, i, tmpdir):
